@@ -322,7 +322,7 @@ func Main(args []string) {
 	if err != nil {
 		common.Fatalf("read: %v", err)
 	}
-	results := common.Supervise("lifecycle-child", nil, lines, 60*time.Second, 12)
+	results := common.SuperviseRetry("lifecycle-child", nil, lines, 60*time.Second, 12)
 	for i := range results {
 		r := &results[i]
 		if !r.OK && (r.Key == "crash" || r.Key == "hang") {
